@@ -24,7 +24,7 @@ import numpy as np
 
 from black_it.samplers.base import BaseSampler
 from black_it.samplers.random_uniform import RandomUniformSampler
-from black_it.utils.base import digitize_data
+from black_it.utils.base import check_arg, digitize_data
 
 if TYPE_CHECKING:
     from numpy.typing import NDArray
@@ -56,6 +56,11 @@ class MLSurrogateSampler(BaseSampler):
         super().__init__(batch_size, random_state, max_deduplication_passes)
 
         if candidate_pool_size is not None:
+            # the batch is selected from the pool: a smaller pool would silently return fewer rows than batch_size
+            check_arg(
+                candidate_pool_size >= batch_size,
+                f"'candidate_pool_size' must be at least the batch size {batch_size}, got {candidate_pool_size}",
+            )
             self._candidate_pool_size = candidate_pool_size
         else:
             self._candidate_pool_size = 1000 * batch_size
